@@ -327,6 +327,26 @@ def schedule_cases(draw, pct=False):
     basis = draw(st.one_of(classical_basis(), classical_basis(), mesh_basis()))
     programs = draw(programs_for(basis))
     mode = draw(st.sampled_from(["list", "list", "list", "pct", "round_robin", "at_pause", "at_pause"])) if pct else draw(st.sampled_from(["list", "list", "list", "round_robin", "at_pause"]))
+    if draw(st.integers(0, 5)) == 0:
+        # a finite class (an increasing and a decreasing pattern): the only classical classes with
+        # empty levels.  One thread is parked in the first lines of a short query while another
+        # extends the class beyond its last non-empty level, then resumes.
+        a, b = draw(st.integers(2, 3)), draw(st.integers(2, 3))
+        basis = [list(range(a)), list(range(b - 1, -1, -1))]
+        if draw(st.booleans()):
+            basis.append(list(draw(gen.perms(3, 4))))
+        basis = list(draw(st.permutations(basis)))
+        bound = (a - 1) * (b - 1)
+        programs = draw(programs_for(basis, draw(st.integers(2, 3))))
+        first = draw(st.integers(0, len(programs) - 1))
+        small = draw(st.integers(1, bound))
+        kind = draw(st.sampled_from(["count", "of_length", "in", "up_to"]))
+        level = ref.av([_to_ref(q) for q in basis], small)
+        programs[first].insert(0, [kind, list(draw(st.sampled_from(level))) if kind == "in" and level else small] if not (kind == "in" and not level) else ["count", small])
+        other = (first + 1 + draw(st.integers(0, len(programs) - 2))) % len(programs)
+        programs[other].insert(0, [draw(st.sampled_from(["count", "of_length", "up_to"])), draw(st.integers(bound + 1, NMAX_CL))])
+        spec = {"mode": "at_pause", "unit": "step", "first": first, "after": draw(st.integers(1, 14))}
+        return {"basis": basis, "programs": programs, "schedule": spec, "precreate": draw(st.integers(0, 3)) != 0}
     if mode == "at_pause":
         # make the scenario likely: the first thread starts with an enumeration of a short level,
         # another thread asks for a level at least two further on
